@@ -156,7 +156,8 @@ func (g *gen) postControllers() {
 		a := &p.Controllers[0]
 		for bi := 1; bi < len(p.Controllers); bi++ {
 			b := &p.Controllers[bi]
-			if strings.Trim(a.Route, "/") == strings.Trim(b.Route, "/") || a.NoRouteAnn || b.NoRouteAnn || len(a.Methods) == 0 || len(b.Methods) == 0 {
+			// (a parameterised prefix would overlap the other controller's literal one: two different, non-overlapping prefixes only)
+			if strings.Trim(a.Route, "/") == strings.Trim(b.Route, "/") || strings.Contains(a.Route+b.Route, "{") || a.NoRouteAnn || b.NoRouteAnn || len(a.Methods) == 0 || len(b.Methods) == 0 {
 				continue
 			}
 			src := a.Methods[0]
@@ -598,6 +599,13 @@ func (g *gen) genTypes() {
 		base := enumBases[g.r.Intn(len(enumBases))]
 		name := g.fresh(g.pick([]string{"Color", "Status", "Level", "Mode", "Kind"}))
 		e := Enum{Name: name, Pkg: g.pick(pks), Base: base, Assigned: g.chance(0.25)}
+		// `type X = int64` is int64 itself: two such enums over one base in one package would share their
+		// constants by the rules of the language, so at most one per (package, base)
+		for _, o := range p.Enums {
+			if e.Assigned && o.Assigned && o.Pkg == e.Pkg && o.Base == e.Base {
+				e.Assigned = false
+			}
+		}
 		vals := enumLits(base, 2+g.r.Intn(3), g.r)
 		for j := range vals {
 			vals[j].Name = fmt.Sprintf("%s%s%d", name, "Val", j)
@@ -612,6 +620,15 @@ func (g *gen) genTypes() {
 			e.Decoys = d
 		}
 		p.Enums = append(p.Enums, e)
+	}
+	// a decoy constant of base type T would, by the rules of the language, also be a constant of every
+	// `type X = T` enum of its package: keep the two apart
+	for i := range p.Enums {
+		for _, o := range p.Enums {
+			if o.Assigned && o.Pkg == p.Enums[i].Pkg && o.Base == p.Enums[i].Base {
+				p.Enums[i].Decoys = nil
+			}
+		}
 	}
 	for i := 0; i < nAliases; i++ {
 		name := g.fresh(g.pick([]string{"UserID", "Score", "Slug", "Amount", "Flag"}))
